@@ -30,14 +30,15 @@ def run_property(prop: str, tier: str, repo: str | None = None, write=True, quie
     ps = ctx.prog.summary()
     out(f"[floxsa] property={prop} tier={tier} repo={ctx.repo} units={len(ps['units'])} lines={ps['lines']} "
         f"functions={ps['functions']} (+{ps['overload_stubs']} overload stubs)")
-    results = []
-    for rule in spec["rules"]:
-        res = rule(ctx)
-        if len(res.instances) < res.min_instances and not res.findings:     # a finding already explains the missing instances
-            raise AnalysisError(
-                f"{res.rule}: only {len(res.instances)} instances found, hand-confirmed minimum is {res.min_instances} "
-                f"(a rule that lost its instances would pass vacuously)")
-        results.append(res)
+    results = [rule(ctx) for rule in spec["rules"]]
+    # a rule that lost its instances would pass vacuously -> analysis error; but when some rule of this property reports a finding, the
+    # finding is the explanation (an edit that removes a construct both breaks one rule's obligation and another's anchor) and is shown first
+    if not any(r.findings for r in results):
+        for res in results:
+            if len(res.instances) < res.min_instances:
+                raise AnalysisError(
+                    f"{res.rule}: only {len(res.instances)} instances found, hand-confirmed minimum is {res.min_instances} "
+                    f"(a rule that lost its instances would pass vacuously)")
     known = load_known()
     known_keys = {(k["property"], k["rule"], k["key"]): k for k in known.get("findings", []) if k.get("status", "known") == "known"}
     violations, known_hits = [], []
